@@ -1,4 +1,4 @@
-CONSTANT Families = {"basis", "sweep", "masks", "zerow", "general", "history", "tset"}
+CONSTANT Families = {"basis", "sweep", "masks", "zerow", "general", "history", "tset", "tgrid"}
 CONSTANT Dens = {1, 2, 3, 4}
 CONSTANT CoefSel = "small"
 CONSTANT XIds = {1, 7}
@@ -7,6 +7,7 @@ CONSTANT HIds = {7}
 CONSTANT Lays = {2, 3, 4, 5, 6, 7, 8}
 CONSTANT Mod = 12
 CONSTANT TsMod = 24
+CONSTANT GMod = 8
 INIT Init
 NEXT Next
 INVARIANT C13_Representable
@@ -33,4 +34,7 @@ INVARIANT C13_XNormLaws
 INVARIANT C13_GridLaws
 INVARIANT C13_RowIndependence
 INVARIANT C13_IgnoreJump
+INVARIANT C13_GridLenLaws
+INVARIANT C13_GridIgnoreJump
+INVARIANT C13_GridDerived
 CHECK_DEADLOCK FALSE
